@@ -32,24 +32,24 @@ for id in $IDS; do
   git -C $SR checkout -q -- . ; git -C $SR clean -fdq
   # (1) demo on clean tree
   cp $demo $SR/$dir/zz_demo_test.go
-  (cd $SR && go test -vet=off -count=1 -run "^($tests)\$" ./$dir >/tmp/seed_clean.log 2>&1); clean_rc=$?
+  (cd $SR && go test -vet=off -count=1 -run "^($tests)\$" ./$dir >/tmp/seed${TAG:-}_clean.log 2>&1); clean_rc=$?
   rm -f $SR/$dir/zz_demo_test.go
   # (2) patch applies, builds
-  if ! git -C $SR apply $src/patch.diff 2>/tmp/seed_apply.log; then echo "$id: patch does not apply"; continue; fi
-  (cd $SR && go build ./... >/tmp/seed_build.log 2>&1); build_rc=$?
+  if ! git -C $SR apply $src/patch.diff 2>/tmp/seed${TAG:-}_apply.log; then echo "$id: patch does not apply"; continue; fi
+  (cd $SR && go build ./... >/tmp/seed${TAG:-}_build.log 2>&1); build_rc=$?
   # (3) suite with patch (up to 3 attempts: root-package tests talk to the live kernel audit subsystem)
   suite_rc=1; attempts=0
   while [ $suite_rc -ne 0 ] && [ $attempts -lt 3 ]; do
     attempts=$((attempts+1))
-    (cd $SR && go test -vet=off -count=1 ./... >/tmp/seed_suite.log 2>&1); suite_rc=$?
+    (cd $SR && go test -vet=off -count=1 ./... >/tmp/seed${TAG:-}_suite.log 2>&1); suite_rc=$?
   done
   # (4) demo with patch
   cp $demo $SR/$dir/zz_demo_test.go
-  (cd $SR && timeout 600 go test -vet=off -count=1 -run "^($tests)\$" ./$dir >/tmp/seed_demo.log 2>&1); demo_rc=$?
+  (cd $SR && timeout 600 go test -vet=off -count=1 -run "^($tests)\$" ./$dir >/tmp/seed${TAG:-}_demo.log 2>&1); demo_rc=$?
   rm -f $SR/$dir/zz_demo_test.go
   # (5) our check against the patched scratch tree
-  (cd $VW && VERIF_REPO=$SR ./check $prop quick >/tmp/seed_check.log 2>&1); check_rc=$?
-  viol=$(grep -m1 '^VIOLATION' /tmp/seed_check.log)
+  (cd $VW && VERIF_REPO=$SR ./check $prop quick >/tmp/seed${TAG:-}_check.log 2>&1); check_rc=$?
+  viol=$(grep -m1 '^VIOLATION' /tmp/seed${TAG:-}_check.log)
   replay=$(echo "$viol" | sed -n 's/.*replay=\([^ ]*\).*/\1/p')
   kind=""; clause=""
   if [ -n "$replay" ] && [ -f "$replay" ]; then
